@@ -1,7 +1,9 @@
-(* Extraction of the executable model to OCaml.  Only ExtrOcamlBasic: string, ascii, positive, N, Z,
-   nat stay the extracted inductive types. *)
+(* Extraction of the executable model to OCaml.  ExtrOcamlBasic (bool, option, unit, list, prod,
+   sumbool, sumor -> the OCaml types of the same shape) and ExtrOcamlString (ascii -> char with
+   ascii_dec / Ascii.eqb -> (=) and Ascii.compare -> Char.compare; string -> char list).  positive, N, Z
+   and nat stay the extracted inductive types; no other Extract Constant. *)
 Require Extraction.
-Require Import ExtrOcamlBasic.
+Require Import ExtrOcamlBasic ExtrOcamlString.
 From Slinky Require Import Model.Types Model.Parse Model.Runtime Model.Style Model.Script
   Model.Writer Model.Exports Model.Dump.
 Extraction Language OCaml.
